@@ -553,3 +553,75 @@ func valueSources(info *types.Info, body ast.Node, e ast.Expr, depth int) []ast.
 func isDeclaredIn(info *types.Info, body ast.Node, v *types.Var) bool {
 	return body.Pos() <= v.Pos() && v.Pos() < body.End()
 }
+
+// reachingValues returns the expressions whose value e can have when control arrives at node `at`, considering only
+// paths that are feasible under the assumption: e itself unless it is a local variable, else the right-hand sides of
+// the assignments of that variable that reach `at` without being overwritten. reachable tells whether `at` can be
+// reached at all; a nil element stands for "declared without a value" (the zero value); ok is false when an
+// assignment cannot be attributed (tuple assignment, address taken).
+func reachingValues(g *eng.Graph, info *types.Info, body ast.Node, at *eng.GNode, e ast.Expr, assumed func(eng.Fact) bool) (vals []ast.Expr, reachable bool, ok bool) {
+	inf := g.Infeasible(assumed)
+	feasible := g.Reach(eng.Query{FromEntry: true, Assume: assumed, AvoidEdge: inf})
+	if !feasible[at] {
+		return nil, false, true
+	}
+	id, isId := ast.Unparen(e).(*ast.Ident)
+	var v *types.Var
+	if isId {
+		if vv, isV := info.ObjectOf(id).(*types.Var); isV && !vv.IsField() && isDeclaredIn(info, body, vv) {
+			v = vv
+		}
+	}
+	if v == nil {
+		return []ast.Expr{e}, true, true
+	}
+	ok = true
+	type def struct {
+		n   *eng.GNode
+		rhs ast.Expr
+	}
+	var defs []def
+	isDef := map[*eng.GNode]bool{}
+	for _, n := range g.Nodes {
+		switch t := n.Node.(type) {
+		case *ast.AssignStmt:
+			for i, l := range t.Lhs {
+				if lid, isL := ast.Unparen(l).(*ast.Ident); isL && info.ObjectOf(lid) == types.Object(v) {
+					if len(t.Lhs) != len(t.Rhs) || (t.Tok != token.ASSIGN && t.Tok != token.DEFINE) {
+						ok = false
+						continue
+					}
+					defs = append(defs, def{n, t.Rhs[i]})
+					isDef[n] = true
+				}
+			}
+		case *ast.ValueSpec:
+			for i, nm := range t.Names {
+				if info.Defs[nm] == types.Object(v) {
+					var rhs ast.Expr
+					if len(t.Values) == len(t.Names) {
+						rhs = t.Values[i]
+					} else if len(t.Values) != 0 {
+						ok = false
+					}
+					defs = append(defs, def{n, rhs})
+					isDef[n] = true
+				}
+			}
+		case *ast.UnaryExpr:
+			if t.Op == token.AND && eng.SelObj(info, t.X) == types.Object(v) {
+				ok = false
+			}
+		}
+	}
+	for _, d := range defs {
+		if !feasible[d.n] {
+			continue
+		}
+		r := g.Reach(eng.Query{FromAt: []*eng.GNode{d.n}, Assume: assumed, AvoidEdge: inf, AvoidNode: func(m *eng.GNode) bool { return isDef[m] && m != at }})
+		if r[at] {
+			vals = append(vals, d.rhs)
+		}
+	}
+	return vals, true, ok
+}
